@@ -380,6 +380,33 @@ def run(repo: Repo, rep: Report) -> None:
                    "created per object inside %s; owner instantiated only inside functions" % sorted({mod.qual_of(c) for c in in_func}) if not bad else
                    "label map outlives one parse call: %s" % "; ".join(bad), node=wsite)
 
+    # (b2) a label map lives for the whole document: it is (re)assigned only when the owner is set up
+    rep.rule("C12.b2-label-map-document-scoped",
+             "the attribute holding a label->BNode map is assigned only in __init__/reset of its owner (once per parse) - the single "
+             "table-listed exception is N3's formula scope - so a label repeated anywhere in one document (also across the named graphs "
+             "of a TriG/N-Quads/TriX document) denotes one node", floor=4)
+    FORMULA_SCOPE = {("rdflib.plugins.parsers.notation3", "SinkParser.node"): "N3 `{ ... }` formula: blank-node labels are scoped to the formula by the N3 semantics (saved and restored around it); Turtle/TriG never take this branch"}
+    map_attrs = set()
+    for name, mod in mods.items():
+        for mname in _label_maps(typed, name, mod):
+            if mname.startswith("self."):
+                map_attrs.add(mname[5:])
+    for name, mod in mods.items():
+        for q, f in mod.functions():
+            for n in own_nodes(f):
+                if isinstance(n, (ast.Assign, ast.AnnAssign)):
+                    tg = n.targets if isinstance(n, ast.Assign) else [n.target]
+                    for t in tg:
+                        if isinstance(t, ast.Attribute) and isinstance(t.value, ast.Name) and t.value.id == "self" and t.attr in map_attrs:
+                            meth = q.rsplit(".", 1)[-1]
+                            why = None
+                            if meth in ("__init__", "reset"):
+                                why = "set up once per owner object"
+                            elif (name, q) in FORMULA_SCOPE:
+                                why = "table: " + FORMULA_SCOPE[(name, q)]
+                            rep.ob("C12.b2-label-map-document-scoped", mod, q, n, why is not None,
+                                   why or "the label map self.%s is replaced in the middle of a document (%s): the same _:label before and after denotes different nodes" % (t.attr, q), node=n)
+
     # ------------------------------------------------------------------ (c)
     rep.rule("C12.c-parse-only-adds",
              "parser modules (and Graph/ConjunctiveGraph/Dataset.parse) call no removing method on a Graph/Store "
